@@ -721,6 +721,21 @@ pub fn step_adm(sim: &mut Sim, ctx: &mut Ctx, adm: &AdmSwarm) -> Option<Tx> {
             ];
             let who = *ctx.rng.pick(&roles);
             sim.stats.fault("admin_ix_by_wrong_role");
+            // with a second group in the world: that group and ITS OWN role holder acting on a
+            // bank of this group (a coherent pair, unlike a single wrong signer)
+            if ctx.world.groups.len() > 1 && ctx.rng.chance(1, 3) {
+                let og = ctx.world.groups[(gi + 1) % ctx.world.groups.len()].clone();
+                sim.stats.fault("admin_ix_by_other_groups_role_holder");
+                let dst = ctx.world.stranger_tokens.get(&b.keys.mint).cloned();
+                let mut keys = b.keys.clone();
+                keys.group = og.key;
+                return Some(match (ctx.rng.below(5), dst) {
+                    (0, Some(d)) | (1, Some(d)) => Tx::one("wrong_role", ix::update_fees_destination(&keys, og.admins.admin, d)),
+                    (2, Some(d)) => Tx::one("wrong_role", ix::withdraw_fees(&keys, og.admins.admin, d, 1)),
+                    (3, _) => Tx::one("wrong_role", ix::clone_emode(og.key, og.admins.emode, og.banks.first()?.keys.bank, b.keys.bank)),
+                    _ => Tx::one("wrong_role", ix::configure_bank_limits_only(og.key, og.admins.limit, b.keys.bank, Some(7), None, None)),
+                });
+            }
             match ctx.rng.below(6) {
                 0 => {
                     let bank = bank?;
